@@ -14,6 +14,7 @@ TRUSTED_BASE = [
 ]
 ASSUMPTIONS = [
     "exact tier: payloads and operands are small Gaussian integers, so float32/float64 arithmetic is exact",
+    "whether transpose() returns the operator itself (`A.T is A`: isa(SelfAdjoint) on a real operator) is read off the implementation per indexed operator and passed to the model (flag field f_T_self); annotation inference itself is property C05. The theorems require the matrix to be symmetric in that case (sym_ok); a wrongly inherited annotation shows up as an oracle failure on the two-level stream (slices of operators declared SelfAdjoint/PSD, then every index form)",
     "reading of the statement: two slices/index arrays select the outer sub-matrix A[rows,:][:,cols] (the documented meaning of Sliced); a pair of python lists is numpy's pairwise selection",
     "index forms outside the statement's list (None, Ellipsis, numpy integers, a single python list, list combined with a slice) are only checked for model/implementation agreement (they end in NotImplementedError or, for a 2-element list, in the `b, int(j)` branch)",
 ]
